@@ -367,7 +367,30 @@ def _rule(ctx, prog, chk, in_scope, exceptions, n, used):
         n += npairs
         base = fn.name.split("__")[-1]
         flagged = set()
+        # a static helper's aliasing contract is what its callers do: a pair counts only if some call site in the unit
+        # hands the same object in at both positions
+        aliased_pairs = None
+        if fn.static and hs:
+            aliased_pairs = set()
+            px = {v: i for i, v in enumerate(fn.params)}
+            for caller in prog.by_unit(fn.unit_src):
+                for el in caller.all_elements():
+                    for c in ir.calls_in(caller, el.e):
+                        if c[1] != fn.name:
+                            continue
+                        for (x, y, f, rl, wl, reader) in hs:
+                            i, j = px.get(x), px.get(y)
+                            if i is None or j is None or i >= len(c[2]) or j >= len(c[2]):
+                                continue
+                            bi, bj = ir.base_var(caller, c[2][i]), ir.base_var(caller, c[2][j])
+                            if bi is not None and bi == bj:
+                                aliased_pairs.add((x, y))
+                            elif bi is not None and bj is not None and bi in caller.params and bj in caller.params \
+                                    and handle_kind(caller, bi)[1] is not None and handle_kind(caller, bi)[1] == handle_kind(caller, bj)[1]:
+                                aliased_pairs.add((x, y))      # the caller's own parameters may be the same object
         for (x, y, f, rl, wl, reader) in hs:
+            if aliased_pairs is not None and (x, y) not in aliased_pairs:
+                continue
             k = None
             for ek in exceptions:
                 if ek[:3] == (base, fn.vars[x]["n"], fn.vars[y]["n"]) and (ek[3] == f or ek[3] == "*") and reader.startswith(ek[4]):
